@@ -12,10 +12,10 @@ echo "== tests with change"; cargo test --offline 2>&1 | grep -E "^test result|F
 t_ok=$(cargo test --offline 2>&1 | grep -c "test result: ok")
 cargo build --offline >/dev/null 2>&1
 echo "== demo with change (expect fail)"; (cd $out && bash ./demo.sh >/dev/null 2>&1); with=$?
-git stash -q
+git checkout -q -- src
 cargo build --offline >/dev/null 2>&1
 echo "== demo without change (expect pass)"; (cd $out && bash ./demo.sh >/dev/null 2>&1); without=$?
-git stash pop -q
+git apply $out/patch.confirmed.diff
 cargo build --offline >/dev/null 2>&1
 echo "with=$with without=$without test_result_ok_lines=$t_ok"
 if [ "$with" != "0" ] && [ "$without" = "0" ] && [ "$t_ok" -ge 3 ]; then
